@@ -252,6 +252,21 @@ def gen_plan(rng, family):
         main.append(["resize", rng.randint(1, plan["workers"] - 1)])
         main.append(["pause"])                  # everything that can still happen happens
         plan["final"] = "await"
+    elif family == "shrinkkill":                # C10 "terminates ... also when workers die during it": idle workers left BEFORE a shrinking
+        plan["reusable"] = True                 # resize, so the shrink has to spawn; a worker spawned BY the resize is killed
+        plan["timeout"] = 10
+        plan["workers"] = rng.choice([2, 3, 4])
+        plan["freeze_worker_timeouts_at_resize"] = True
+        plan["kill_budget"] = 1
+        plan["kill_only_workers_spawned_by_resize"] = True
+        for _ in range(rng.randint(1, 2)):
+            main.append(["submit", "value"])
+        main.append(["await_all"])
+        main.append(["pause"])                  # idle workers time out here
+        main.append(["pause"])
+        main.append(["resize", rng.randint(1, plan["workers"] - 1)])
+        main.append(["pause"])
+        plan["final"] = "await"
     elif family == "race":                      # C09: callers racing with identical arguments, the harness takes no lock
         plan["reusable"] = True
         plan["timeout"] = 10
@@ -466,6 +481,7 @@ def make_program(plan):
                         alive_now = sum(1 for p_ in env.worker_procs() if p_.alive)
                         env.notes["at_rest_before_resize"] = bool(idle and cur is not None and len(dict.copy(cur._processes)) == alive_now)
                     env.notes.setdefault("resizes", []).append(act[1])
+                    env.notes["pids_alive_at_resize"] = {p_.pid for p_ in env.worker_procs() if p_.alive}
                     prev = S.re_._executor
                     started = prev is not None and prev._executor_manager_thread is not None
                     pids_before = set(dict.copy(prev._processes)) if prev is not None else set()
@@ -804,7 +820,7 @@ def analyze(plan, r):
         hang_props.append("C05")
     if fam in ("timeout",) or (plan["timeout"] and not kills):
         hang_props.append("C07")
-    if fam in ("resize", "idleshrink", "cbreuse", "growshrink"):
+    if fam in ("resize", "idleshrink", "cbreuse", "growshrink", "shrinkkill"):
         hang_props += ["C10", "C09"]
     if fam == "reuse":
         hang_props += ["C09"]
@@ -853,9 +869,11 @@ def analyze(plan, r):
             sig += f" queue-slots[{','.join(map(str, slots))}]"
         add(hang_props, "hang", sig, f"pending futures {pending}; users_done={r.users_done}")
     if r.status == "steps":
-        if not kills and "user:sleep" in blocked and not spawn_failed:
+        if (not kills or fam == "shrinkkill") and "user:sleep" in blocked and not spawn_failed:
             # nothing was killed, the step budget is exhausted and a user thread is still inside a polling loop (sleep, look, sleep ...):
-            # an API call that polls for ever.  (With kills the known lock-holder findings produce the same picture: left inconclusive.)
+            # an API call that polls for ever.  (With kills the known lock-holder findings produce the same picture: left inconclusive --
+            # except in family shrinkkill, where the only process killed is a worker just spawned by the resize: the manager must notice its death
+            # and break the pool, which ends the resize.)
             sig = (f"livelock status[steps] blocked[{','.join(blocked)}] dead-holders[{','.join(sorted(set(dead_holders)))}] "
                    f"crashes[{','.join(sorted(set(crashes)))}] ctx[{ctx}]")
             add(hang_props, "livelock", sig, f"pending futures {pending}; users_done={r.users_done}")
